@@ -92,6 +92,18 @@ def run_flow(c):
             fm.sample_and_log_prob(N=50)
         elif op == "inv_z":
             fm.sample_and_log_prob(z=np.random.randn(50, c["dims"]))
+        elif op == "perturb_base":
+            # a random weight draw that includes the base distribution's own parameters (LARS: Gaussian mean / log-scale when
+            # trainable, acceptance network), followed by the finalisation a training run ends with
+            import torch as _t
+            dist = fm.model._distribution
+            g_ = _t.Generator().manual_seed(c["seed"] + 99)
+            with _t.no_grad():
+                for nm_, q_ in dist.named_parameters():
+                    if q_.requires_grad or nm_.startswith("acceptance"):
+                        q_.add_((0.8 if "acceptance" in nm_ else (0.3 if "scale" in nm_ else 0.9)) * _t.randn(q_.shape, generator=g_, dtype=q_.dtype))
+            fm.model.eval()
+            fm.model.finalise()
         elif op == "reset_w":
             fm.reset_model(weights=True, permutations=False)
         elif op == "reset_p":
@@ -244,10 +256,45 @@ def run_flow(c):
         pts = np.stack([xx.ravel(), yy.ravel()], axis=1)
         lp = np.concatenate([fm.log_prob(pts[i:i + 20000]) for i in range(0, len(pts), 20000)])
         out["integral"] = float(np.exp(lp).sum() * (g[1] - g[0]) ** 2)
+        # exact flows integrate to one up to the grid error; a LARS base carries a Monte Carlo estimate of its normalisation
+        tol_i = 0.03 if "lars" in str(c["flow_config"].get("distribution")) or "resampled" in str(c["flow_config"].get("distribution")) else 0.01
+        # the grid is finite: the integral over it must equal the probability mass the flow puts there, measured with the
+        # flow's own sampler (20000 draws, 3.5 sigma binomial error)
+        xs_ = np.concatenate([fm.sample(5000) for _ in range(4)])
+        inside = float(np.mean(np.all((xs_ >= g[0]) & (xs_ <= g[-1]), axis=1)))
+        mc = 3.5 * math.sqrt(max(inside * (1 - inside), 1e-4) / len(xs_))
+        out["grid_mass"] = inside
+        direct("the density integrates to one over the plane (2-d grid integration against the sampled mass inside the grid)",
+               abs(out["integral"] - inside) <= tol_i + mc,
+               f"integral of exp(log_prob) over the grid = {out['integral']:.4f}, fraction of samples inside the grid = {inside:.4f}")
     return out
 
 
 # -----------------------------------------------------------------------------------------------------------------------
+def maxdiff(a, b):
+    """max |a - b| over the finite entries; inf when shapes or the pattern of non-finite entries differ"""
+    a, b = np.asarray(a, dtype=float), np.asarray(b, dtype=float)
+    if a.shape != b.shape:
+        return float("inf")
+    fa, fb = np.isfinite(a), np.isfinite(b)
+    if not np.array_equal(fa, fb) or not np.array_equal(a[~fa], b[~fb], equal_nan=True):
+        return float("inf")
+    return float(np.abs(a[fa] - b[fa]).max()) if fa.any() else 0.0
+
+
+def forward_rows(p, samples, chunk=41):
+    """per-proposal densities of physical points passed FORWARDS, independently of compute_log_Q: column 0 is the prior in the
+    unit hypercube (0), column i + 1 is flow.log_prob_ith(rescaled point, i) + log-Jacobian of the rescaling."""
+    rows = []
+    for i0 in range(0, len(samples), chunk):
+        xp_, lj_ = p.rescale(samples[i0:i0 + chunk])
+        r_ = np.zeros((len(xp_), p.n_proposals))
+        for i in range(p.n_proposals - 1):
+            r_[:, i + 1] = p.flow.log_prob_ith(xp_, i) + lj_
+        rows.append(r_)
+    return np.concatenate(rows) if rows else np.zeros((0, p.n_proposals))
+
+
 def make_model(prior="uniform"):
     from nessai.model import Model
 
@@ -417,7 +464,40 @@ def run_ins(c):
     w = {-1: 0.4}
     for i in range(c["n_flows"]):
         w[i] = 0.6 / c["n_flows"]
+    # proposals whose samples were all removed have weight EXACTLY zero (also the initial one); the rest is renormalised
+    zero = [z_ for z_ in c.get("zero_ids", []) if z_ in w]
+    if zero and len(zero) < len(w):
+        for z_ in zero:
+            w[z_] = 0.0
+        tot = sum(w.values())
+        w = {k_: v_ / tot for k_, v_ in w.items()}
     p.update_proposal_weights(w)
+    out["weights"] = [float(v_) for v_ in p.weights_array]
+    # every function that returns per-proposal densities, against the same points passed forwards
+    from scipy.special import logsumexp as _lse0
+    with np.errstate(all="ignore"):
+        probes = {}
+        s_d, q_d = p.draw(23)
+        probes["draw"] = (s_d, q_d, s_d["logQ"])
+        s_p, q_p = p.draw_from_prior(19)
+        probes["draw_from_prior"] = (s_p, q_p, s_p["logQ"])
+        s_f, q_f, _cnt = p.draw_from_flows(31, weights=p.weights_array / p.weights_array.sum())
+        lQ_f, q_f2 = p.compute_meta_proposal_samples(s_f)
+        probes["draw_from_flows"] = (s_f, q_f, None)
+        probes["compute_meta_proposal_samples"] = (s_f, q_f2, lQ_f)
+        for nm_, (s_, q_, lQ_) in probes.items():
+            fr = forward_rows(p, s_)
+            e_ = maxdiff(q_, fr)
+            direct(f"{nm_}: every per-proposal density row equals the same point passed forwards (log_prob_ith + log_j)",
+                   e_ <= tol_lp * (1 + float(np.abs(fr[np.isfinite(fr)]).max() if np.isfinite(fr).any() else 0.0)),
+                   f"weights {out['weights']}: max |row - forward row| = {e_:.3g}"
+                   + (f"; column(s) {sorted(set(np.where(~np.isfinite(q_))[1].tolist()))} not finite" if not np.isfinite(q_).all() else ""))
+            if lQ_ is not None:
+                with np.errstate(all="ignore"):
+                    e2 = maxdiff(lQ_, _lse0(fr, b=p.weights_array, axis=1))
+                direct(f"{nm_}: logQ is the weighted meta-proposal of the forward rows",
+                       e2 <= tol_lp * (1 + float(np.abs(lQ_[np.isfinite(lQ_)]).max() if np.isfinite(lQ_).any() else 0.0)),
+                       f"weights {out['weights']}: max error {e2:.3g}")
     with np.errstate(all="ignore"):
         samples, log_q = p.draw(c["n"])
         logQ2, log_q2 = p.compute_meta_proposal_samples(samples)
